@@ -100,7 +100,7 @@ package types
 //@   requires wf_ctx(ctx)
 
 //@ func (h ITrxHandler_TrxEVMHandler) ValidateTrx(ctx)
-//@   requires wf_ctx(ctx)
+//@   requires wf_ctx(ctx) && ctx.Tx.Type == 6
 //@   modifies lastigas
 
 //@ func (h ITrxHandler_TrxAcctHandler) ExecuteTrx(ctx)
